@@ -23,9 +23,10 @@ import (
 // strStruct is { <id>: string V } ; used as args (id 1), success result (id 0)
 // and exception body (id 1).
 type strStruct struct {
-	Name string
-	ID   int16
-	V    *string
+	Name     string
+	ID       int16
+	V        *string
+	Required bool // Read rejects a struct without the field, like generated code for `required`
 }
 
 func (p *strStruct) Write(ctx context.Context, oprot thrift.TProtocol) error {
@@ -74,7 +75,13 @@ func (p *strStruct) Read(ctx context.Context, iprot thrift.TProtocol) error {
 			return err
 		}
 	}
-	return iprot.ReadStructEnd(ctx)
+	if err := iprot.ReadStructEnd(ctx); err != nil {
+		return thrift.PrependError(fmt.Sprintf("%T read struct end error: ", p), err)
+	}
+	if p.Required && p.V == nil {
+		return thrift.NewTProtocolExceptionWithType(thrift.INVALID_DATA, fmt.Errorf("Required field V is not set"))
+	}
+	return nil
 }
 
 // echoResult is { 0: string success, 1: Oops oops }.
@@ -162,7 +169,7 @@ type svcFEcho struct{ *frugal.FBaseProcessorFunction }
 func (p *svcFEcho) Process(fctx frugal.FContext, iprot, oprot *frugal.FProtocol) error {
 	ctx, cancelFn := frugal.ToContext(fctx)
 	defer cancelFn()
-	args := strStruct{Name: "echo_args", ID: 1}
+	args := strStruct{Name: "echo_args", ID: 1, Required: true}
 	err := args.Read(ctx, iprot)
 	iprot.ReadMessageEnd(ctx)
 	if err != nil {
